@@ -23,9 +23,12 @@ iteration-keeps-sample-nodes-fixed
     After every iteration: node_moments() of every sample node is (its input time, variance 0) exactly, the
     posterior row of every sample node is bit-identical to what it was before the iteration, and the
     constraint rows of the sample nodes still equal the input times.
-dated-output-keeps-sample-times
-    At the end of the real date() call the sample nodes of the returned tree sequence have exactly their
-    input times and fit.node_posteriors() gives (input time, 0) for them.
+final-sample-posteriors-equal-input-times
+    At the end of the real date() call fit.node_posteriors() gives (input time, variance 0) exactly for every
+    sample node, every iteration was seen by the wrapper, and every sample WITHOUT children has exactly its
+    input time in the returned tree sequence.  (A sample that has children may be pushed older by
+    min_branch_length in the output by constraint enforcement; that is C03's permitted exception and is not a
+    statement about posteriors, so it is not judged here.)
 rescaling-of-messages-never-changes-posteriors
     Gauge invariance.  Two identical ExpectationPropagation objects are advanced k iterations; in one of
     them the internal representation is changed without changing what it represents (scale[n] := g[n],
@@ -465,10 +468,11 @@ def run(req, rep):
                         obs.active = None
                         samples = ts.samples()
                         post = fit.node_posteriors()
-                        ok = (done == iters and np.array_equal(out.nodes_time[samples], ts.nodes_time[samples])
-                              and np.array_equal(post["mean"][samples], ts.nodes_time[samples])
-                              and bool(np.all(post["variance"][samples] == 0)))
-                        rep.case("dated-output-keeps-sample-times", ok, key=key, input=desc,
+                        childless = np.array([u for u in samples if not np.any(ts.edges_parent == u)], dtype=int)
+                        ok = (done == iters and np.array_equal(post["mean"][samples], ts.nodes_time[samples])
+                              and bool(np.all(post["variance"][samples] == 0))
+                              and np.array_equal(out.nodes_time[childless], ts.nodes_time[childless]))
+                        rep.case("final-sample-posteriors-equal-input-times", ok, key=key, input=desc,
                                  observed={"iterations_seen": done, "times": out.nodes_time[samples], "post": post[samples]},
                                  expected={"iterations_seen": iters, "times": ts.nodes_time[samples]})
             if rejected:
